@@ -70,6 +70,7 @@ InitState(cfg) ==
    nsaves |-> 0,            \* Save calls so far
    ctrFailOnly |-> 0,       \* the application's counter store refuses exactly this update of the incoming counter (0: none)
    nsets |-> 0,             \* updates of the incoming counter so far
+   imposeHb |-> 0,          \* the application's logon callback rewrites the interval of the settings it is handed (0: it does not)
    staleTR |-> FALSE]       \* (trace validation) a TestRequest of a timer that outlived a logout was tolerated
 
 IsLogged(s)  == s.st = "SL"
@@ -145,9 +146,12 @@ RecvLogon(s0, a) ==
                  IF a.enc \notin s.cfg.allowed THEN Reject(s, sn, 98)
                  ELSE IF a.hb < s.cfg.hbMin \/ a.hb > s.cfg.hbMax THEN Reject(s, sn, 108)
                  ELSE IF ~a.cred THEN Reject(s, sn, -1)
-                 ELSE LET s1 == StartTimers([s EXCEPT !.hb = a.hb])
+                 \* (an application that imposes an interval of its own in its logon callback: the answer announces that interval
+                 \*  and the timers run on it - the session has ONE heartbeat interval, the one its Logon answer states)
+                 ELSE LET hbEff == IF s.imposeHb > 0 THEN s.imposeHb ELSE a.hb
+                          s1 == StartTimers([s EXCEPT !.hb = hbEff])
                           s2 == Ev([s1 EXCEPT !.st = "SL", !.everLogged = TRUE], "logon")
-                          s3 == Emit(s2, [Msg("A", 0) EXCEPT !.hb = a.hb, !.enc = a.enc])
+                          s3 == Emit(s2, [Msg("A", 0) EXCEPT !.hb = hbEff, !.enc = a.enc])
                       IN GapCheck(s3, a)
             [] s.st = "WLA" ->
                  LET s1 == Ev([s EXCEPT !.st = "SL", !.everLogged = TRUE], "logon")
